@@ -100,6 +100,13 @@ def gen_cache(rng, nops):
         body = lines[1:]
         gets = [("get " + l.split(" ", 1)[1].rsplit(" ", 1)[0]) for l in body if l.startswith("ins ")]
         lines = lines + ["clear"] * n + gets[-12:]
+    elif rng.random() < 0.08 and len(lines) > 6:
+        # the stratum 'the same lookup 2^16 times' (statistics counters of a narrow integer type wrap around)
+        gets = [("get " + l.split(" ", 1)[1].rsplit(" ", 1)[0]) for l in lines[1:] if l.startswith("ins ")]
+        if gets:
+            n = rng.choice([65535, 65536, 65537])
+            classes["get:repeated-%d" % n] += 1
+            lines = lines + [rng.choice(gets)] * n + gets[-4:]
     return lines, {"cfg": lines[0], "classes": dict(classes)}
 
 
